@@ -103,13 +103,13 @@ func LoadProgram(repo string, patterns []string, overlay map[string][]byte, veri
 	// functions outside the module that carry a contract to be *verified* (e.g. container/heap
 	// instantiated for a heap.Interface implementation of the module): their SSA bodies are
 	// available because dependencies are loaded with syntax
-	for key, fs := range sp.Funcs {
+	for _, fs := range sp.Funcs {
 		if fs.Assumed || strings.HasPrefix(fs.PkgPath, modulePath) {
 			continue
 		}
 		if spk := p.SPkgs[fs.PkgPath]; spk != nil {
 			for _, m := range spk.Members {
-				if fn, ok := m.(*ssa.Function); ok && funcKey(fn) == key && fn.Blocks != nil {
+				if fn, ok := m.(*ssa.Function); ok && funcKey(fn) == fs.Key && fn.Blocks != nil {
 					p.addFunc(fn)
 				}
 			}
